@@ -7,7 +7,13 @@ class LexError(Exception):
     pass
 
 
-def strip_c_like(text, nested=False, backtick=None, single_quote_strings=True):
+def _line_end(text, i, ends):
+    """index of the first line terminator at or after i (len(text) if none)"""
+    js = [j for j in (text.find(e, i) for e in ends) if j >= 0]
+    return min(js) if js else len(text)
+
+
+def strip_c_like(text, nested=False, backtick=None, single_quote_strings=True, line_ends="\n"):
     """-> code text with comments removed. nested: /* */ nest (Kotlin, Swift, Scala).
     backtick: None | 'raw' (Go raw strings) | 'template' (TS template literals) | 'ident' (Kotlin/Swift/Scala quoted identifiers)"""
     out = []
@@ -16,8 +22,7 @@ def strip_c_like(text, nested=False, backtick=None, single_quote_strings=True):
         c = text[i]
         two = text[i:i + 2]
         if two == "//":
-            j = text.find("\n", i)
-            i = n if j < 0 else j
+            i = _line_end(text, i, line_ends)     # Kotlin / Swift / Scala (and JS) end a line comment at a bare CR as well
             continue
         if two == "/*":
             depth = 1
@@ -88,14 +93,13 @@ def strip_python(text):
     line_has_code = False
     while i < n:
         c = text[i]
-        if c == "\n":
+        if c in "\n\r":
             line_has_code = False
             out.append(c)
             i += 1
             continue
         if c == "#":
-            j = text.find("\n", i)
-            i = n if j < 0 else j
+            i = _line_end(text, i, "\n\r")       # Python: a bare CR ends the physical line
             continue
         if c in "\"'":
             q = text[i:i + 3] if text[i:i + 3] in ('"""', "'''") else c
@@ -133,9 +137,9 @@ def code_of(lang, text):
     if lang == "python":
         r = strip_python(text)
     elif lang == "typescript":
-        r = strip_c_like(text, nested=False, backtick="template")
+        r = strip_c_like(text, nested=False, backtick="template", line_ends="\n\r\u2028\u2029")
     elif lang == "go":
         r = strip_c_like(text, nested=False, backtick="raw")
     else:
-        r = strip_c_like(text, nested=True, backtick="ident")
+        r = strip_c_like(text, nested=True, backtick="ident", line_ends="\n\r")
     return "".join(r.split())
